@@ -38,7 +38,10 @@ const CHANGE_STATE_INTERVAL_SEC: u64 = 10;
 pub struct Session {
     own_id: [u8; PEER_ID_SIZE],
     pieces_status: Vec<Status>,
+    #[cfg(not(rdest_verif))]
     peers: HashMap<String, Peer>,
+    #[cfg(rdest_verif)]
+    peers: HashMap<String, Peer, crate::verif::SimBuildHasher>,
     general_channels: GeneralChannels,
     metainfo: Metainfo,
     candidates: Vec<(String, [u8; PEER_ID_SIZE])>,
@@ -120,7 +123,10 @@ impl Session {
         Session {
             own_id,
             pieces_status: vec![Status::Missing; metainfo.pieces_num()],
+            #[cfg(not(rdest_verif))]
             peers: HashMap::new(),
+            #[cfg(rdest_verif)]
+            peers: HashMap::default(),
             general_channels: GeneralChannels::new(peer_tx, peer_rx, broad),
             metainfo,
             candidates: vec![],
@@ -164,6 +170,8 @@ impl Session {
         let mut change_state_timer = self.start_change_conn_state_timer();
 
         loop {
+            #[cfg(rdest_verif)]
+            crate::verif::emit(crate::verif::Ev::Snapshot(self.verif_snap()));
             tokio::select! {
                 _ = change_state_timer.tick() => self.timeout_change_conn_state().await.expect("Can't change connection state"),
                 Ok((socket, _)) = listener.accept() => self.spawn_peer_listener(socket).await,
@@ -219,6 +227,8 @@ impl Session {
 
         let state_before = self.conn_state_text();
         let cmd = self.change_conn_state(&mut rate, &new_optimistic)?;
+        #[cfg(rdest_verif)]
+        self.verif_rotated(&rate, &new_optimistic, &cmd);
         let state_after = self.conn_state_text();
 
         self.log(format!(
@@ -507,6 +517,11 @@ impl Session {
         match self.peers.get(addr).ok_or(Error::PeerNotFound)?.piece_index {
             Some(piece_index) => {
                 self.pieces_status[piece_index] = Status::Have;
+                #[cfg(rdest_verif)]
+                crate::verif::emit(crate::verif::Ev::PieceDone {
+                    addr: addr.clone(),
+                    index: piece_index,
+                });
                 let _ = self
                     .general_channels
                     .broad
@@ -568,6 +583,11 @@ impl Session {
     }
 
     async fn handle_kill_req(&mut self, addr: &String, reason: &String) -> Result<bool, Error> {
+        #[cfg(rdest_verif)]
+        crate::verif::emit(crate::verif::Ev::KillReq {
+            addr: addr.clone(),
+            reason: reason.clone(),
+        });
         self.log_peer(addr, "Peer killed, reason: ".to_string() + reason)
             .await;
         self.kill_peer(&addr).await;
@@ -644,10 +664,14 @@ impl Session {
                     self.log_peer(addr, format!("End game mode, piece: {}", piece_index))
                         .await;
                 }
+                #[cfg(rdest_verif)]
+                self.verif_picked(addr, Some(*piece_index));
                 return Some(*piece_index);
             }
         }
 
+        #[cfg(rdest_verif)]
+        self.verif_picked(addr, None);
         None
     }
 
@@ -798,5 +822,68 @@ impl Session {
                 let _ = view.channel.send(cmd).await;
             }
         }
+    }
+}
+
+#[cfg(rdest_verif)]
+impl Session {
+    fn verif_snap(&self) -> crate::verif::Snap {
+        let mut peers: Vec<crate::verif::PeerSnap> = self
+            .peers
+            .iter()
+            .map(|(addr, p)| crate::verif::PeerSnap {
+                addr: addr.clone(),
+                id: p.id,
+                pieces: p.pieces.clone(),
+                piece_index: p.piece_index,
+                am_interested: p.am_interested,
+                am_choked: p.am_choked,
+                interested: p.interested,
+                choked: p.choked,
+                optimistic_unchoke: p.optimistic_unchoke,
+                download_rate: p.download_rate,
+                uploaded_rate: p.uploaded_rate,
+            })
+            .collect();
+        peers.sort_by(|a, b| a.addr.cmp(&b.addr));
+
+        crate::verif::Snap {
+            status: self
+                .pieces_status
+                .iter()
+                .map(|s| match s {
+                    Status::Have => -1,
+                    Status::Missing => 0,
+                    Status::Reserved(n) => *n as i64,
+                })
+                .collect(),
+            peers,
+            candidates: self.candidates.len(),
+        }
+    }
+
+    fn verif_picked(&self, addr: &String, chosen: Option<usize>) {
+        crate::verif::emit(crate::verif::Ev::Pick {
+            addr: addr.clone(),
+            chosen,
+            snap: self.verif_snap(),
+        });
+    }
+
+    fn verif_rotated(&self, rates: &Vec<(String, u32)>, new_optimistic: &Vec<String>, cmd: &BroadCmd) {
+        let mut map: Vec<(String, bool)> = match cmd {
+            BroadCmd::SendOwnState { am_choked_map } => am_choked_map
+                .iter()
+                .map(|(addr, choked)| (addr.clone(), *choked))
+                .collect(),
+            _ => vec![],
+        };
+        map.sort();
+        crate::verif::emit(crate::verif::Ev::Rotation {
+            rates: rates.clone(),
+            new_optimistic: new_optimistic.clone(),
+            map,
+            snap: self.verif_snap(),
+        });
     }
 }
